@@ -9,7 +9,7 @@ LEVEL = 'exploration'
 INVARIANTS = ('leader_without_majority_contact', 'success_while_cut_off', 'has_quorum_mismatch')
 for _i in INVARIANTS:
     INV_PROP[_i] = PROP
-RULE = ('one case = one seeded execution of a 2-5 voter cluster with leaderFallbackTimeout drawn from just above the heartbeat '
+RULE = ('one case = one seeded execution of a 2-5 voter cluster (plus 0-2 read-only nodes) with leaderFallbackTimeout drawn from just above the heartbeat '
         'period to 30 s, in which partitions (clean cuts: crossing pipes frozen both ways from an instant) isolate the leader '
         'from a majority at scheduler-chosen phases relative to heartbeats and replies; the oracle keeps its own record of '
         'when the leader last received any message from each voter; distinct = distinct event/state log digest; non-trivial = '
@@ -164,6 +164,8 @@ class C20Spec(c01.C01Spec):
         s['dts'] = rng.choice([[0.0, 0.0005, 0.002, 0.005, 0.02], [0.0, 0.002, 0.01, 0.05, 0.1]])
         if conf['leaderFallbackTimeout'] >= 5.0:
             s['dts'] = [0.0, 0.005, 0.02, 0.1, 0.3]
+        # read-only nodes answer the leader's heartbeats too: they must not count as voters heard from
+        cfg['n_ro'] = rng.choice([0, 0, 1, 2])
         return cfg
 
     def make_oracle(self, world, app):
